@@ -26,6 +26,7 @@ class C12(PropBase):
         "by an earlier operation (cache hit delta > 0); distinct = distinct (operation digest, pre-state signature) pairs. "
         "Every operation is compared with the same operation executed alone in a fork of the pristine process."
         ' Under the swept exhaustion fault a build/marshal/unmarshal is first issued from every stack depth at which it cannot complete; unions whose earlier member takes only some values of a class are over-represented on the marshal side.'
+        ' s_iter_late: an Iterator[T] target is fed from a writable buffer which the caller overwrites after the call returned and before the iterator is read; expected = the same message alone, read at once.'
     )
     ASSUMPTIONS = [
         "cold reference = fork of a template that imported the library and called nothing, with the world loaded",
